@@ -35,6 +35,7 @@ type StoreP struct {
 	Operation uint32
 	PayDid    string
 	Cid       string
+	NoAlias   bool // the proposal carries an empty alias (an unnamed model)
 	RwDids    []string
 	RoDids    []string
 }
@@ -47,7 +48,7 @@ func StoreMsg(w *world.World, p StoreP) *saotypes.MsgStore {
 	if p.Cid == "" {
 		p.Cid = world.Cid
 	}
-	if p.Alias == "" {
+	if p.Alias == "" && !p.NoAlias {
 		p.Alias = "alias-" + p.DataId[:2]
 	}
 	if p.Operation == 0 {
